@@ -20,6 +20,11 @@ func New(ctx context.Context, cfg config.Config) (*db, error) {
 
 	container := di.New(cfg)
 
+	// The container builds its members lazily and without synchronisation:
+	// build everything the client methods use before any goroutine can call them.
+	container.Store()
+	container.Transaction()
+
 	container.Pool().Run(ctx)
 	deleteFiles, err := container.Core().Load(ctx)
 	if err != nil {
